@@ -11,6 +11,7 @@ import (
 
 	pbsubstreams "github.com/streamingfast/substreams/pb/sf/substreams/v1"
 	"go.uber.org/zap"
+	"google.golang.org/protobuf/proto"
 
 	"verif/harness/fw"
 	"verif/harness/gen"
@@ -194,12 +195,29 @@ func runC09(c *fw.Case) {
 		c.Violation("C09/saveload/"+p.String(), "save/load failed: "+err.Error(), nil)
 		return
 	}
+	// C replays the whole chain from logs that were RETAINED while the chain executed (a cached output file holds the logs of a
+	// whole segment): a log must stay what it was when it was read
+	C, err := rs.SaveLoadFull(ctx, cfg, A, uint64(200+nPre))
+	if err != nil {
+		c.Violation("C09/saveload/"+p.String(), "save/load failed: "+err.Error(), nil)
+		return
+	}
+	var keptLogs [][]byte
+	var keptDeltas [][]*pbsubstreams.StoreDelta
+	var keptContent []map[string][]byte
 	for i, ops := range chain {
 		if err := rs.RunBlock(p, A, uint64(nPre+i), ops); err != nil {
 			c.Violation("C09/exec-error/"+p.String()+"/"+fw.NormalizeMsg(err.Error()), "execution failed: "+err.Error(), wit("full", i))
 			return
 		}
 		log := A.ReadOps()
+		keptLogs = append(keptLogs, log) // as returned, not copied
+		var ds []*pbsubstreams.StoreDelta
+		for _, d := range A.GetDeltas() {
+			ds = append(ds, proto.Clone(d).(*pbsubstreams.StoreDelta))
+		}
+		keptDeltas = append(keptDeltas, ds)
+		keptContent = append(keptContent, rawContent(A))
 		B.Reset()
 		if err := B.ApplyOps(log); err != nil {
 			c.Violation("C09/applyops-error/"+p.String()+"/"+fw.NormalizeMsg(err.Error()), "ApplyOps failed: "+err.Error(), wit("full", i))
@@ -221,6 +239,23 @@ func runC09(c *fw.Case) {
 		}
 		if len(ops) >= 2 {
 			c.Nontrivial(fmt.Sprintf("full|%s|%v|%v", p, gen.DescribeBlocks(p, pre), gen.DescribeBlocks(p, chain[:i+1])))
+		}
+	}
+
+	for i := range chain {
+		C.Reset()
+		if err := C.ApplyOps(keptLogs[i]); err != nil {
+			c.Violation("C09/retained-log/applyops-error/"+p.String()+"/"+fw.NormalizeMsg(err.Error()), "ApplyOps of a log retained while later blocks executed failed: "+err.Error(), wit("full", i))
+			return
+		}
+		c.Count("blocks_replayed_from_retained_logs", 1)
+		if d := deltasDiff(keptDeltas[i], C.GetDeltas()); d != "" {
+			c.Violation("C09/retained-log/deltas-differ/"+p.Policy, fmt.Sprintf("block %d of the chain replayed from its log after the later blocks had executed: deltas differ (executed vs replayed): %s", i, d), wit("full", len(chain)-1))
+			return
+		}
+		if d := diffRaw(keptContent[i], rawContent(C)); d != "" {
+			c.Violation("C09/retained-log/content-differs/"+p.Policy, fmt.Sprintf("block %d of the chain replayed from its log after the later blocks had executed: content differs (executed vs replayed): %s", i, d), wit("full", len(chain)-1))
+			return
 		}
 	}
 
